@@ -197,10 +197,10 @@ def closure_n4(lo: int, hi: int, kmask: int):
 @obligation(
     "C14.refusal",
     covers=("refused", "allowed-in-closure", "allowed-as-argument", "hidden-from-plain-helper", "plain-target",
-            "root-invoked-through-modifier-clone", "after-an-earlier-call-that-passed-the-target-as-argument"),
+            "root-invoked-through-modifier-clone", "root-invoked-through-a-chain-of-modifiers", "after-an-earlier-call-that-passed-the-target-as-argument"),
     split={"kmask": [1, 3, 5, 7], "hj": [1, 2]},
     bounds="graphs over 3 nodes without self loops (2^6) with n0 a memento function with automatic version, plus one hidden dynamic call "
-           "(globals()[name]) from n0 or from a plain helper called by n0 to node hj, with/without the target passed as an argument; n0 invoked directly, through .force_local() or through .partial(0); optionally after an earlier call of n0 that legitimately passed the target as an argument",
+           "(globals()[name]) from n0 or from a plain helper called by n0 to node hj, with/without the target passed as an argument; n0 invoked directly, through .force_local(), .partial(0), or a chain of two modifiers (.partial(0).force_local(), .force_local().with_context_args(..)); optionally after an earlier call of n0 that legitimately passed the target as an argument",
     variables="choice: adjacency mask (6 bits), kinds, hidden source, argument bit, invocation form",
     budget_s={"quick": 170, "thorough": 600},
     choice_vars=4,
@@ -209,7 +209,7 @@ def refusal(amask: int, kmask: int, hsrc: int, hj: int, as_arg: bool, via: int, 
     pr = True if primed else False
     amask = _bits(amask, 6)
     hsrc = pick(hsrc, 3)
-    via = pick(via, 3)
+    via = pick(via, 5)
     arg = True if as_arg else False
     with concrete_region():
         n = 3
@@ -227,22 +227,25 @@ def refusal(amask: int, kmask: int, hsrc: int, hj: int, as_arg: bool, via: int, 
         try:
             prog.exec(src)
             target = getattr(prog, "n%d" % hj)
-            root = [prog.n0, prog.n0.force_local(), prog.n0.partial(0)][via]
+            root = [prog.n0, prog.n0.force_local(), prog.n0.partial(0), prog.n0.partial(0).force_local(),
+                    prog.n0.force_local().with_context_args({"k": 1})][via]
             if via:
                 cover("root-invoked-through-modifier-clone")
+            if via >= 3:
+                cover("root-invoked-through-a-chain-of-modifiers")
             if pr and not arg and kinds[hj] == "m":
                 # an EARLIER, legitimate call of the same function had the target passed as an argument: what that call was
                 # allowed to do must not widen what the next call may do
                 cover("after-an-earlier-call-that-passed-the-target-as-argument")
                 try:
-                    root(fns=[target]) if via == 2 else root(0, fns=[target])
+                    root(fns=[target]) if via in (2, 3) else root(0, fns=[target])
                 except UndeclaredDependencyError:
                     pass
             try:
                 if arg and kinds[hj] == "m":
-                    root(fns=[target]) if via == 2 else root(0, fns=[target])
+                    root(fns=[target]) if via in (2, 3) else root(0, fns=[target])
                 else:
-                    root() if via == 2 else root(0)
+                    root() if via in (2, 3) else root(0)
                 outcome = "result"
             except UndeclaredDependencyError:
                 outcome = "refused"
